@@ -188,6 +188,13 @@ class C11(Check):
         pending = []
         self.all_cases(ctx, cases, by_name, index, pending)
         self.flush(ctx, pending, index)
+        # statement coverage of the scripts by the observed (and model-reproduced) traces
+        allm = {m for r in recs for m in r['marks']}
+        hit = {m for _c, o, _r, _b, _e, _d, _deep in pending for m in o['trace']}
+        ctx.notes['script_statements'] = len(allm)
+        ctx.notes['script_statements_reached_by_a_trace'] = len(allm & hit)
+        ctx.notes['script_statements_never_reached'] = ['%s:%d' % (gen.FILES[m // 100000], m % 100000)
+                                                        for m in sorted(allm - hit)][:400]
         self.readonly_oracle(ctx, by_name)
 
     def all_cases(self, ctx, cases, by_name, index, pending):
